@@ -72,29 +72,36 @@ def SstW.orderCheck (cfg : SstCfg) (w : SstW) (key : Bytes) : Option WRes :=
     | .lt => none
   | none => none
 
+/-- `WriteNext` after the ordering check: bloom filter, checksum, data append, index append (with the
+rewind of the data writer when the index append fails), then the bookkeeping -/
+def SstW.writeBody (cfg : SstCfg) (w : SstW) (key : Bytes) (value : GoBytes) (f : Fault) : SstW × WRes :=
+  let w1 : SstW := { w with bloomKeys := w.bloomKeys ++ [key] }
+  match f with
+  | .data => (w1, .io)
+  | .index =>
+    -- `preWriteOffset := dataWriter.Size()`; the record is appended, the index append fails, the data
+    -- writer is rewound (a failing Seek would leave the data writer where it is)
+    let d1 := (w.data.write cfg.dc value).1
+    let d2 := match d1.seek w.data.cur with
+      | .ok s => s
+      | .error _ => d1
+    ({ w1 with data := d2 }, .io)
+  | .none =>
+    let d1 := (w.data.write cfg.dc value).1
+    let off := (w.data.write cfg.dc value).2
+    let i1 := (w.index.write cfg.ic (some (encIndexEntry key off (valueSum value)))).1
+    ({ w1 with
+        data := d1, index := i1, lastKey := some key,
+        md := { w.md with
+          minKey := if w.lastKey.isNone then some key else w.md.minKey
+          numRecords := w.md.numRecords + 1
+          nullValues := if value.isNone then w.md.nullValues + 1 else w.md.nullValues } }, .ok)
+
 /-- `WriteNext(key, value)` with the fault injected into this call.  A nil key behaves like the empty key. -/
 def SstW.writeNext (cfg : SstCfg) (w : SstW) (key : Bytes) (value : GoBytes) (f : Fault) : SstW × WRes :=
   match w.orderCheck cfg key with
   | some r => (w, r)
-  | none =>
-    let w1 := { w with bloomKeys := w.bloomKeys ++ [key] }
-    let pre := w.data.cur                       -- `preWriteOffset := dataWriter.Size()`
-    if f = .data then (w1, .io) else
-    let (d1, off) := w.data.write cfg.dc value
-    if f = .index then
-      -- rewind the data writer; a failing Seek would leave the data writer where it is
-      let d2 := match d1.seek pre with
-        | .ok s => s
-        | .error _ => d1
-      ({ w1 with data := d2 }, .io)
-    else
-      let (i1, _) := w.index.write cfg.ic (some (encIndexEntry key off (valueSum value)))
-      ({ w1 with
-          data := d1, index := i1, lastKey := some key,
-          md := { w.md with
-            minKey := if w.lastKey.isNone then some key else w.md.minKey
-            numRecords := w.md.numRecords + 1
-            nullValues := if value.isNone then w.md.nullValues + 1 else w.md.nullValues } }, .ok)
+  | none => w.writeBody cfg key value f
 
 /-- the three files of a table directory that the model predicts byte for byte (`bloom.bf.gz` is opaque) -/
 structure Table where
